@@ -72,19 +72,27 @@ def run_case(case, answer_within=3.0):
         gate.hit("handler", 0)
         return 0x0000
 
+    def boom(i):
+        # C26: the handler's generator raises at the arrival point, i.e. while the peer's A-RELEASE-RQ is pending
+        if case.get("raises") and pos == "check" and k == i:
+            raise RuntimeError("handler failure while the peer's release request is pending")
+
     def on_find(event):
         for i in range(1, n + 1):
             gate.hit("check", i)
+            boom(i)
             ds = Dataset()
             ds.QueryRetrieveLevel, ds.PatientID = "PATIENT", str(i)
             yield 0xFF00, ds
         gate.hit("check", n + 1)
+        boom(n + 1)
 
     def on_get(event):
         gate.hit("prelude", 0)
         yield n
         for i in range(1, n + 1):
             gate.hit("check", i)
+            boom(i)
             ds = ct_ds(i)
             if case.get("enc") and i == n:
                 # a value that cannot be encoded: the sub-operation fails before anything is sent
@@ -134,7 +142,7 @@ def run_case(case, answer_within=3.0):
         dest.add_supported_context(CT)
         dest_server = dest.start_server(("127.0.0.1", 0), block=False, evt_handlers=[(evt.EVT_C_STORE, dest_store)])
         dest_port[0] = dest_server.socket.getsockname()[1]
-    obs = {"svc": svc, "n": n, "pos": pos, "k": k, "tmo": bool(case.get("tmo", True)), "enc": bool(case.get("enc", False)), "rp": False, "t_rp": -1.0, "peer_saw": "", "reached": False, "queued": False}
+    obs = {"svc": svc, "n": n, "pos": pos, "k": k, "tmo": bool(case.get("tmo", True)), "enc": bool(case.get("enc", False)), "raises": bool(case.get("raises", False)), "final_status": -1, "rp": False, "t_rp": -1.0, "peer_saw": "", "reached": False, "queued": False}
     peer = None
     try:
         peer = RawPeer(port, [(VERIF_UID, ["1.2.840.10008.1.2"]), (FIND, ["1.2.840.10008.1.2"]), (GET, ["1.2.840.10008.1.2"]), (MOVE, ["1.2.840.10008.1.2"]),
@@ -219,6 +227,8 @@ def run_case(case, answer_within=3.0):
                 else:
                     st = getattr(p, "Status", None)
                     final = st is not None and st not in (0xFF00, 0xFF01)
+                    if final and p.MessageIDBeingRespondedTo is not None:
+                        obs["final_status"] = int(st)
                     if final and pos == "between" and not released_sent[0]:
                         obs["reached"] = True
                         send_release()
